@@ -88,6 +88,7 @@ def check(cx):
         'R20.3 hashing and verification share one Argon2 instance and salt; the verifier\'s PasswordHash takes params from that instance; -g prints argon2_hash_password(input) unchanged',
         'R20.4 every command-line option overrides its own configuration field',
         'R20.5 every documented setting is read by the code path that implements it; every MainConfig field has a reader outside config.rs',
+        'R20.7 max_joins governs JOIN: compared as (running number of joined channels) < max_joins before every admission, 405 otherwise (shared rule with C07)',
         'R20.6 (thorough, TLS builds) both accept loops hand the stream to the same user_state_process; the only behavioural read of the transport is is_secure() -> 671 in WHOIS',
     ]
     ck.does_not_decide += ['cryptographic exactness of "accepting exactly the password"', 'transcript equality of plain vs TLS sessions',
@@ -258,6 +259,11 @@ def check(cx):
     mr = {r['variant']: r for e, r in replies(wm)}
     if mr.get('RplMotd372', {}).get('fields', {}).get('motd') != field(CONFIG, 'motd'):
         r5.violation('process_motd|motd-field', 'MOTD does not show the configured text', loc=fm)
+
+    # ---------------------------------------------------------------- R20.7 max_joins
+    from .C07 import rule_quota
+    r7 = cx.rule('R20.7', 'max_joins governs JOIN', floor=3, kind='required-guard')
+    rule_quota(cx, r7)
 
     # ---------------------------------------------------------------- R20.6 TLS
     r6 = cx.rule('R20.6', 'TLS changes the transport only', floor=1, kind='wiring')
